@@ -204,6 +204,19 @@ Proof.
   - (* L1 *) go I t.
 Qed.
 
+(* cancellation of a reservation (try_unleak_slot_index_internal, C08): the holder of the TOP reserved slot gives it back *)
+Definition cancel (s : st) (t : nat) (v slot : Z) : st :=
+  {| head := head s; tail := tail s; etail := slot; dhead := dhead s; buf := buf s; thr := upd (thr s) t Idle;
+     published := published s; delivered := delivered s; log := log s ++ [(t, RFull v)] |}.
+
+Lemma inv_cancel s t v slot : Inv s -> pslot (thr s t) = Some slot -> etail s = slot + 1 -> Inv (cancel s t v slot).
+Proof.
+  intros I Hps He. unfold cancel.
+  pose proof (i_ord _ I) as Hord. pose proof (i_cap _ I) as Hcap. pose proof (i_lenp _ I) as Hlp. pose proof (i_lend _ I) as Hld.
+  assert (Hr := i_prange _ I _ _ Hps).
+  go I t.
+Qed.
+
 Lemma inv_exec s e : Inv s -> Inv (exec s e).
 Proof. intros I. destruct e; cbn; [apply inv_step|apply inv_start]; assumption. Qed.
 
